@@ -110,6 +110,23 @@ def check_stream(ctx, c):
                         f'equally seeded streams diverge when float/int/bool draws are interleaved differently', where=f'{c}.{m}')
 
     r125_translation_invariance(ctx, c, ci, G)
+    # R12.6: next_float hands out the underlying draw unchanged ([0, 1) by the generator's contract); next_bool thresholds it
+    ctx.rule('R12.6', f'{c}.next_float returns the generator draw itself; next_bool compares one draw with a constant')
+    fn = prog.method(c, 'next_float', inherited=False)
+    rs = [r for r in walk_shallow(fn) if isinstance(r, ast.Return)]
+    ok = len(rs) == 1 and rs[0].value is not None and unparse(rs[0].value) == f'self.{G}.random()'
+    ctx.ob('R12.6', f'{c}.next_float', ok, sample=f'{c}.next_float returns {short(rs[0].value) if rs else "-"}')
+    if not ok:
+        ctx.finding('R12.6', f'{c}.next_float', ci, fn, f'next_float does not return self.{G}.random() unchanged: the [0, 1) range (0 included, 1 excluded) is no longer the generator\'s contract',
+                    where=f'{c}.next_float')
+    fn = prog.method(c, 'next_bool', inherited=False)
+    rs = [r for r in walk_shallow(fn) if isinstance(r, ast.Return)]
+    ok = len(rs) == 1 and isinstance(rs[0].value, ast.Compare) and len(rs[0].value.ops) == 1 and \
+        {unparse(rs[0].value.left), unparse(rs[0].value.comparators[0])} & {f'self.{G}.random()'} and \
+        any(isinstance(x, ast.Constant) for x in (rs[0].value.left, rs[0].value.comparators[0]))
+    ctx.ob('R12.6', f'{c}.next_bool', bool(ok), sample=f'{c}.next_bool returns {short(rs[0].value) if rs else "-"}')
+    if not ok:
+        ctx.finding('R12.6', f'{c}.next_bool', ci, fn, 'next_bool is not a comparison of one generator draw with a constant', where=f'{c}.next_bool')
     ctx.rule('R12.3', f'seed wiring of {c}: set_seed stores and seeds the same value; reset re-seeds with the current seed; original seed is constructor-only')
     ss = prog.method(c, 'set_seed', inherited=False)
     p = ss.args.args[1].arg
